@@ -10,6 +10,6 @@ cd "$B"
 rm -f ./*.ml ./*.mli ./*.cm* ./*.o
 timeout 900 coqc -Q $V/coq Verif $V/coq/extract/Extract$U.v -o $B/Extract$U.vo >/dev/null
 rm -f $V/coq/extract/.Extract$U.aux $V/coq/extract/Extract$U.glob
-{ echo "module BZ = Z"; echo "open $U"; cat $V/ocaml/common.ml $V/ocaml/${P}_drv.ml; } > ${P}_main.ml
+{ echo "module BZ = Z"; echo "module BQ = Q"; echo "open $U"; cat $V/ocaml/common.ml $V/ocaml/${P}_drv.ml; } > ${P}_main.ml
 ocamlfind ocamlopt -O3 -w -a -package zarith,str -linkpkg $P.mli $P.ml ${P}_main.ml -o $V/build/drv-$P 2>/dev/null || \
 ocamlfind ocamlopt -w -a -package zarith,str -linkpkg $P.mli $P.ml ${P}_main.ml -o $V/build/drv-$P
